@@ -12,7 +12,7 @@ import (
 func init() {
 	register(&propInfo{
 		ID:          "C20",
-		Explanation: "Typestate, lockset and path analysis of the httpio reader side channel: (R20.1) the channel that signals 'stream consumed' is closed only inside sync.Once-guarded closures of one Once object, although Read and Close may be invoked any number of times; (R20.2) upload handler and parameter decoder each perform lookup-or-create of the hand-off channel inside one critical section of the same mutex, keyed by the parsed id, create only on the not-found branch, and meet on that channel with opposite directions, each inside a select that also watches its context; (R20.3) the encoder draws a fresh id on every invocation (inside the encoder closure), uploads the caller's reader to a URL derived from that id and returns that same id as the parameter; (R20.4) the upload handler reports success only after the consumed-signal was received, and no path falls off the end (implicit 200) without it. R20.1 also requires every use of the wrapped body outside the signalling Read/Close to raise the signal itself; (R20.7) the inner read stands behind a test of a wrapper field that every failing read sets, so end-of-file is reported again without touching the body that net/http closes once the signal is raised. (R20.8) a registered parameter encoder runs once per argument, before the first transport send; (R20.9) a counting limit in the reader path is given back on every path. (R20.10) the encoder does nothing with the caller's reader except hand it to the upload request. (R20.11) the upload handler never reads the request body itself.",
+		Explanation: "Typestate, lockset and path analysis of the httpio reader side channel: (R20.1) the channel that signals 'stream consumed' is closed only inside sync.Once-guarded closures of one Once object, although Read and Close may be invoked any number of times; (R20.2) upload handler and parameter decoder each perform lookup-or-create of the hand-off channel inside one critical section of the same mutex, keyed by the parsed id, create only on the not-found branch, and meet on that channel with opposite directions, each inside a select that also watches its context; (R20.3) the encoder draws a fresh id on every invocation (inside the encoder closure), uploads the caller's reader to a URL derived from that id and returns that same id as the parameter; (R20.4) the upload handler reports success only after the consumed-signal was received, and no path falls off the end (implicit 200) without it. R20.1 also requires every use of the wrapped body outside the signalling Read/Close to raise the signal itself; (R20.7) the inner read stands behind a test of a wrapper field that every failing read sets, so end-of-file is reported again without touching the body that net/http closes once the signal is raised. (R20.8) a registered parameter encoder runs once per argument, before the first transport send; (R20.9) a counting limit in the reader path is given back on every path. (R20.10) the encoder does nothing with the caller's reader except hand it to the upload request. (R20.11) the upload handler never reads the request body itself. (R20.12) the upload handler waits only for its rendezvous, its request's context and the consumed signal.",
 		NotDecided:  "Byte-exactness of the stream (values through net/http), arrival-order schedules themselves (only the symmetric locked rendezvous that makes both orders work), and the upload handler carrying on after a malformed id (observation recorded in DESIGN.md).",
 		Assumptions: []string{"sync.Once.Do runs its argument at most once per Once object", "the wrapper type is the struct in httpio embedding io.ReadCloser with a chan struct{} field"},
 		Run:         runC20,
@@ -173,10 +173,54 @@ func runC20(c *Ctx) {
 
 	// ---- R20.1
 	closes := usesOfKind(p.uses(fWait), "close")
+	// the channel may also be closed through the local it was made into before it went into the field
+	for _, su := range usesOfKind(p.uses(fWait), "store") {
+		mks := map[ssa.Value]bool{}
+		for _, o := range c.origins(su.Val) {
+			if mk, ok := o.Root.(*ssa.MakeChan); ok && len(o.Fields) == 0 {
+				mks[mk] = true
+			}
+		}
+		if len(mks) == 0 {
+			continue
+		}
+		for _, fn := range p.Funcs {
+			if pkgOf(fn) != p.Httpio.Pkg {
+				continue
+			}
+			allInstrs(fn, func(in ssa.Instruction) {
+				ci, ok := isBuiltinCall(in, "close")
+				if !ok {
+					return
+				}
+				for _, o := range c.origins(ci.Call.Args[0]) {
+					if mks[o.Root] && len(o.Fields) == 0 {
+						closes = append(closes, FieldUse{Fn: fn, Field: fWait, Kind: "close", At: in})
+					}
+				}
+			})
+		}
+	}
 	if len(closes) == 0 {
 		c.bad("R20.1", "reader wrapper: consumed signal", "-", "the consumed signal is never raised: the uploading request could never complete")
 	}
 	var onceObj *types.Var
+	// isRaise: the instruction raises the consumed signal: Once.Do, or a call of the once-wrapped function kept in a field
+	isRaise := func(in ssa.Instruction) bool {
+		ci, ok := in.(ssa.CallInstruction)
+		if !ok {
+			return false
+		}
+		if calleeName(ci) == "(*sync.Once).Do" {
+			return true
+		}
+		if !ci.Common().IsInvoke() && onceObj != nil {
+			if f := loadedField(ci.Common().Value); f != nil && f == onceObj {
+				return true
+			}
+		}
+		return false
+	}
 	for _, u := range closes {
 		construct := fmt.Sprintf("%s: close of the consumed-signal channel", fname(u.Fn))
 		// enclosing closure must be the argument of (*sync.Once).Do
@@ -205,14 +249,16 @@ func runC20(c *Ctx) {
 					raises = true
 				}
 			}
+			allInstrs(g, func(in ssa.Instruction) {
+				if _, isCall := in.(*ssa.Call); isCall && isRaise(in) && calleeName(in.(ssa.CallInstruction)) != "(*sync.Once).Do" {
+					raises = true
+				}
+			})
 		}
 		c.check(raises, "R20.1", construct, p.pos(m.Pos()), "closes the channel (once)", mname+" does not raise the consumed signal")
 		if raises && mname == "Close" {
 			// Close must raise the signal on every path (a handler that closes the reader early is done with it)
-			isDo := func(in ssa.Instruction) bool {
-				ci, ok := in.(*ssa.Call)
-				return ok && calleeName(ci) == "(*sync.Once).Do"
-			}
+			isDo := isRaise
 			if ret := reachFromEntry(m, isReturn, isDo); ret != nil {
 				c.bad("R20.1", construct+" on every path", c.ipos(ret), "Close can return without raising the consumed signal (e.g. only when closing the body fails): a handler that closes the reader early leaves the uploading request pending for ever")
 			} else {
@@ -245,10 +291,7 @@ func runC20(c *Ctx) {
 								if bo.Op == token.EQL {
 									fail = iff.Block().Succs[1]
 								}
-								isDo := func(in ssa.Instruction) bool {
-									ci, ok := in.(*ssa.Call)
-									return ok && calleeName(ci) == "(*sync.Once).Do"
-								}
+								isDo := isRaise
 								if reachFromBlock(fail, isReturn, isDo) == nil {
 									okr = true
 								}
@@ -435,6 +478,65 @@ func runC20(c *Ctx) {
 	}
 	if !c.need("R20.2", "upload handler closure / decoder closure", hnd != nil && decf != nil) {
 		return
+	}
+
+	// ---- R20.12: an upload waits for its request, for its request's context and for the consumed signal — for
+	// nothing else. A bounded resource taken before the rendezvous and held until the stream is consumed (a cap
+	// on parked uploads) deadlocks calls that carry two readers once the first readers of enough calls hold all
+	// the slots, and lets uploads whose request never comes starve everybody.
+	c.ruleOpt("R20.12", "an upload waits only for its rendezvous, its request context and the consumed signal: no other channel operation, WaitGroup or Cond wait in the upload handler")
+	{
+		okChan := func(v ssa.Value) bool {
+			if ch, ok := v.Type().Underlying().(*types.Chan); ok {
+				if pt, ok := ch.Elem().(*types.Pointer); ok && twrc != nil && pt.Elem() == types.Type(twrc) {
+					return true // the rendezvous channel
+				}
+			}
+			if fWait != nil && isLoadOf(v, fWait) {
+				return true
+			}
+			if ci, ok := v.(*ssa.Call); ok && ci.Common().IsInvoke() && ci.Common().Method.Name() == "Done" {
+				return true
+			}
+			return false
+		}
+		n := 0
+		for _, g := range c.region(hnd) {
+			allInstrs(g, func(in ssa.Instruction) {
+				bad := ""
+				switch x := in.(type) {
+				case *ssa.Send:
+					if !okChan(x.Chan) {
+						bad = "send"
+					}
+				case *ssa.UnOp:
+					if x.Op == token.ARROW && !okChan(x.X) {
+						if _, deferred := in.(*ssa.Defer); !deferred {
+							bad = "receive"
+						}
+					}
+				case *ssa.Select:
+					if x.Blocking {
+						for _, st := range x.States {
+							if !okChan(st.Chan) {
+								bad = "select on another channel"
+							}
+						}
+					}
+				default:
+					if isGoroutineWait(in) {
+						bad = "wait"
+					}
+				}
+				if bad != "" {
+					n++
+					c.bad("R20.12", fmt.Sprintf("%s: upload handler waits for something else (%s)", fname(g), bad), c.ipos(in), "the upload handler waits on a channel that is neither its rendezvous, its request's context nor the consumed signal (a slot of a bounded pool, say): calls carrying several readers deadlock once first readers hold all the slots, and uploads whose request never arrives starve every later call")
+				}
+			})
+		}
+		if n == 0 {
+			c.ok("R20.12", "no instance", "-", "the upload handler waits only for the rendezvous, the request context and the consumed signal")
+		}
 	}
 	c.rendezvous(hnd, "send")
 	c.rendezvous(decf, "recv")
@@ -913,6 +1015,14 @@ func (c *Ctx) onceGuard(fn *ssa.Function, depth int) (*types.Var, bool) {
 					}
 					continue
 				}
+				if calleeName(x) == "sync.OnceFunc" {
+					// the once-wrapped function lives in a field: that field stands for the Once
+					f := onceFuncField(x)
+					if f == nil || !merge(f, true) {
+						return nil, false
+					}
+					continue
+				}
 				if calleeName(x) != "(*sync.Once).Do" {
 					return nil, false
 				}
@@ -1192,4 +1302,20 @@ func (c *Ctx) uploadBodyOnlyThroughWrapper(rule string) {
 	if n == 0 {
 		c.ok(rule, "upload request body", "-", "only wrapped and handed over")
 	}
+}
+
+// onceFuncField: the struct field a sync.OnceFunc result is stored into (directly or in a literal).
+func onceFuncField(call ssa.CallInstruction) *types.Var {
+	v, ok := call.(ssa.Value)
+	if !ok || v.Referrers() == nil {
+		return nil
+	}
+	for _, ref := range *v.Referrers() {
+		if st, ok := ref.(*ssa.Store); ok && st.Val == v {
+			if fa, ok := st.Addr.(*ssa.FieldAddr); ok {
+				return fieldOfAddr(fa)
+			}
+		}
+	}
+	return nil
 }
